@@ -333,6 +333,144 @@ func checkFanoutCoordinator(c *Ctx, rule string, b *Body, semNames map[string]bo
 			return s
 		},
 	})
+	// (c3) the dispatch loop is left early only after an error was handed to the collector: a silent break (cancelled
+	// context, unreadable item…) falls through to the fill and the done signal, and the operation succeeds on a prefix
+	{
+		var loops []ast.Node
+		ast.Inspect(b.Block, func(n ast.Node) bool {
+			switch l := n.(type) {
+			case *ast.RangeStmt, *ast.ForStmt:
+				hasGo := false
+				ast.Inspect(l, func(m ast.Node) bool {
+					if _, ok := m.(*ast.GoStmt); ok {
+						hasGo = true
+					}
+					return !hasGo
+				})
+				if hasGo {
+					loops = append(loops, l)
+				}
+			}
+			return true
+		})
+		// local closures that send on an error channel (reportError := func(err error) { errC <- err })
+		errSenders := map[types.Object]bool{}
+		isErrChanSend := func(m ast.Node) bool {
+			snd, ok := m.(*ast.SendStmt)
+			if !ok {
+				return false
+			}
+			ch, ok := info.TypeOf(snd.Chan).Underlying().(*types.Chan)
+			return ok && (isErrorType(ch.Elem()) || namedTypeID(ch.Elem()) == "pkg/core.errorHit")
+		}
+		ast.Inspect(b.Block, func(n ast.Node) bool {
+			as, ok := n.(*ast.AssignStmt)
+			if !ok || len(as.Lhs) != 1 || len(as.Rhs) != 1 {
+				return true
+			}
+			lit, ok := as.Rhs[0].(*ast.FuncLit)
+			if !ok {
+				return true
+			}
+			sends := false
+			ast.Inspect(lit.Body, func(m ast.Node) bool {
+				if isErrChanSend(m) {
+					sends = true
+				}
+				return !sends
+			})
+			if id, ok := as.Lhs[0].(*ast.Ident); ok && sends {
+				if o := info.Defs[id]; o != nil {
+					errSenders[o] = true
+				} else if o := info.Uses[id]; o != nil {
+					errSenders[o] = true
+				}
+			}
+			return true
+		})
+		isErrSend := func(st ast.Stmt) bool {
+			found := false
+			ast.Inspect(st, func(m ast.Node) bool {
+				if _, isLit := m.(*ast.FuncLit); isLit {
+					return false
+				}
+				if call, ok := m.(*ast.CallExpr); ok {
+					if id, ok := ast.Unparen(call.Fun).(*ast.Ident); ok && errSenders[info.Uses[id]] {
+						found = true
+					}
+				}
+				if snd, ok := m.(*ast.SendStmt); ok {
+					if ch, ok := info.TypeOf(snd.Chan).Underlying().(*types.Chan); ok {
+						if isErrorType(ch.Elem()) || namedTypeID(ch.Elem()) == "pkg/core.errorHit" {
+							found = true
+						}
+					}
+				}
+				return !found
+			})
+			return found
+		}
+		silent := 0
+		var silentPos token.Pos
+		nBreaks := 0
+		for _, l := range loops {
+			ast.Inspect(l, func(n ast.Node) bool {
+				if _, isLit := n.(*ast.FuncLit); isLit {
+					return false
+				}
+				br, ok := n.(*ast.BranchStmt)
+				if !ok || br.Tok != token.BREAK || br.Label != nil {
+					return true
+				}
+				// the loop this break leaves must be l itself (not an inner loop / switch / select)
+				target := ast.Node(nil)
+				for x := b.parent[br]; x != nil; x = b.parent[x] {
+					switch x.(type) {
+					case *ast.RangeStmt, *ast.ForStmt, *ast.SwitchStmt, *ast.TypeSwitchStmt, *ast.SelectStmt:
+						target = x
+					}
+					if target != nil {
+						break
+					}
+				}
+				if target != l {
+					return true
+				}
+				nBreaks++
+				reported := false
+				// statements before the break in its own block and in the enclosing blocks up to the loop body
+				for x := ast.Node(br); x != nil && x != l; x = b.parent[x] {
+					var list []ast.Stmt
+					switch blk := b.parent[x].(type) {
+					case *ast.BlockStmt:
+						list = blk.List
+					case *ast.CaseClause:
+						list = blk.Body
+					case *ast.CommClause:
+						list = blk.Body
+					}
+					for _, st := range list {
+						if st.Pos() >= x.Pos() {
+							break
+						}
+						if isErrSend(st) {
+							reported = true
+						}
+					}
+				}
+				if !reported {
+					silent++
+					silentPos = br.Pos()
+				}
+				return true
+			})
+		}
+		if silent > 0 {
+			c.fail(rule+".abort-reports-error", key, p.Pos(silentPos), "the dispatch loop is left by a break that is not preceded by a send on the error channel: the coordinator then waits for the running workers and signals done, so the collector publishes a result built from a prefix of the items as if it were complete")
+		} else {
+			c.ok(rule+".abort-reports-error", key, p.Pos(b.Block.Pos()), "every early exit of the dispatch loop ("+itoa(nBreaks)+" break) follows an error send")
+		}
+	}
 	if nGo == 0 {
 		c.fail(rule+".slot-before-go", key, p.Pos(b.Block.Pos()), "coordinator starts no goroutine any more: the fan-out instance changed shape")
 	} else if len(goBad) > 0 {
